@@ -37,7 +37,7 @@ def all_id_values(x, acc):
 
 
 ODD_NAMES = ["src%d-%d.feature", "login[%d]-%d.feature", "a*b%d-%d.feature", "sp ace %d %d.feature", "\u00fcn\u00ef%d-%d.feature", "q?%d-%d.feature", "{%d,%d}.feature", "%d-%d", "_-%d-%d.feature",
-             "x%d'y\"%d.feature"]
+             "x%d'y\"%d.feature", "back\\slash%d\\%d.feature", "per%%cent%d-%d.feature", "a&b;c%d-%d.feature", "tab\t%d-%d.feature", "UPPER%d-%d.FEATURE", "dot.%d.%d.", "#hash%d-%d.feature"]
 
 
 def expected_for(uri, text, opts):
@@ -113,7 +113,9 @@ def check_stream(case, stats):
         else:
             ev = gh.GherkinEvents(gh.GherkinEvents.Options(*opts))
             per_source = []
-            for se in gh.SourceEvents(paths).enum():
+            # the paths may come as any iterable (a generator over a directory listing, a tuple)
+            given = iter(list(paths)) if case.get("api") == "iterator-paths" else tuple(paths) if case.get("api") == "tuple-paths" else paths
+            for se in gh.SourceEvents(given).enum():
                 se_before = json.loads(json.dumps(se))
                 if case.get("api") == "reordered-keys":
                     # the same source envelope with its keys in another order (e.g. after a sort-keys JSON round trip)
@@ -194,7 +196,7 @@ def g_stream(s):
     dup = s.int(4) == 0
     if dup and srcs:
         srcs.insert(s.int(len(srcs) + 1), srcs[s.int(len(srcs))])
-    return {"sub": "stream", "sources": srcs, "opts": [bool(s.int(2)), bool(s.int(2)), bool(s.int(2))], "api": s.choice(["main", "enum", "enum", "enum", "round-robin", "reordered-keys"]),
+    return {"sub": "stream", "sources": srcs, "opts": [bool(s.int(2)), bool(s.int(2)), bool(s.int(2))], "api": s.choice(["main", "enum", "enum", "enum", "round-robin", "reordered-keys", "iterator-paths", "tuple-paths"]),
             "same_path_for_equal_sources": dup}
 
 
@@ -264,6 +266,7 @@ def unit_corpus(a):
     for i in range(0, len(texts), 5):
         cases.append({"sub": "stream", "sources": [t for _, t in texts[i:i + 3]], "opts": [True, True, True], "api": "round-robin"})
         cases.append({"sub": "stream", "sources": [t for _, t in texts[i:i + 3]], "opts": [True, True, True], "api": "reordered-keys"})
+        cases.append({"sub": "stream", "sources": [t for _, t in texts[i:i + 3]], "opts": [True, True, True], "api": "iterator-paths"})
     same = texts[3][1]
     cases.append({"sub": "stream", "sources": [same, texts[4][1], same, same], "opts": [True, True, True], "api": "enum", "same_path_for_equal_sources": True})
     cases.append({"sub": "stream", "sources": [same, same], "opts": [False, False, True], "api": "main", "same_path_for_equal_sources": True})
